@@ -3,7 +3,7 @@ from vlib.common import nt_len, NOTE, SCHED_TRUSTED
 _COQ = ["Common/ListLemmas.v", "RefCount/Model.v", "RefCount/Spec.v", "RefCount/Proofs.v"]
 _RULE = ("implementation-driven random gate-level histories of RefCount (SetContext, AddRef with nil/logging/released-calling "
          "callbacks, Ref.Release in two segments incl. double releases, released() from outside and from under the mutex, resolve "
-         "goroutines stepped through their first select, resolver returns with/without release function and error, store sections, "
+         "goroutines stepped through their first select, resolver returns with/without release function and error, store sections, root contexts cancelled by their owner, "
          "Wait, WaitWithReleased and Access consumers with cancellation, Access callbacks returning before and after an invalidation "
          "incl. the ABA shape in a configuration where the resolver returns a constant value) + corpus; distinct = distinct event sequence; non-trivial = >= 10 events")
 
@@ -38,9 +38,9 @@ _MODELS = [
          corpus="refcount", project={"C08": _proj_c08, "C09": _proj_c09}, quick_n=1500, thorough_n=150000, nontrivial=nt_len(10), rule=_RULE),
 ]
 _TRUSTED = SCHED_TRUSTED + [
-    "modelled, not verified: context.WithCancel (a resolve context is cancelled only by its cancel function: root contexts are never cancelled from outside), sync.Mutex.TryLock succeeds exactly when no section is running (one segment at a time), CContainer.SetValue as an assignment",
+    "modelled, not verified: context.WithCancel (a resolve context is cancelled by its cancel function or, synchronously, when the owner cancels the root context it derives from: event 14), sync.Mutex.TryLock succeeds exactly when no section is running (one segment at a time), CContainer.SetValue as an assignment",
 ]
-_ASSUME = ["root contexts are not cancelled from outside while installed",
+_ASSUME = ["C09's progress clause reads 'has a context' as: a context is installed and its owner has not cancelled it (with a cancelled, not cleared, root context resolve() may return without calling the resolver)",
            "the resolver returns value g+1 (never the empty value) and error codes other than context.Canceled",
            "consumer kind 1 = WaitWithReleased + the six lines of ResolveWithReleased replicated in the harness",
            "the reference of an Access call is private to it (no other actor calls its Release)",
@@ -65,7 +65,7 @@ PROPS = {
                          "keep+resolved+no error), or the store section of a superseded goroutine (its own, never delivered result). The codec "
                          "produces only generation-unique resolver values (lemma about Spec.hstep). Model tied to the code by scheduled differential "
                          "correspondence; monitors (once; target/refs at release; allowed causes; no leak) run on the implementation's observations.",
-                    note=NOTE + "Resolver values are generation-unique (g+1) and never empty; root contexts are never cancelled from outside. "
+                    note=NOTE + "Resolver values are generation-unique (g+1) and never empty. "
                                 "'Shortly after' = by an enabled internal step (store section) or within the same critical section. Gate placement trusted.",
                     technique=_TECH)),
     "C09": dict(pid=9, coq=_COQ + ["RefCount/ProofsC08.v", "RefCount/ProofsC09.v", "RefCount/Props_C09.v"], props_file="RefCount/Props_C09.v", models=_MODELS, trusted=_TRUSTED, assumptions=_ASSUME,
@@ -81,7 +81,9 @@ PROPS = {
                          "pinned variant is a _refuted theorem); every API call is one total section (no deadlock). Monitors on the implementation's "
                          "observations: <= 1 goroutine in the resolver, AddRef never panics, quiescent => in progress or delivered, released() restarts.",
                     note=NOTE + "Liveness is quiescence safety (fairness of the Go scheduler is not modelled). 'No deadlock' = every API call is a single "
-                                "mutex section that never waits; the lock discipline itself is C13's obligation.",
+                                "mutex section that never waits; the lock discipline itself is C13's obligation. Progress is claimed while the installed "
+                                "root context is not cancelled by its owner: with a cancelled (not cleared) context a queued resolve goroutine may return "
+                                "without resolving (Props_C09 c09_example_cancelled_root_no_progress; monitor clause 9.3 is conditioned accordingly).",
                     technique=_TECH)),
     "C10": dict(pid=10, coq=_COQ8 + ["RefCount/ProofsC10.v", "RefCount/ProofsC10a.v", "RefCount/ProofsC10b.v", "RefCount/Props_C10.v"], props_file="RefCount/Props_C10.v", models=_MODELS, trusted=_TRUSTED, assumptions=_ASSUME,
                 meta=dict(
